@@ -27,7 +27,6 @@ ShapeOK(t) ==
   /\ IdxOK(t.trifacet, Len(t.facets))
   /\ TrisOK(t.mesh.faces, Len(t.mesh.verts))
   /\ BWellFormed(t.mesh.vol6s)
-  /\ t.scale.sn \in 1..8 /\ t.scale.sd \in 1..8
 PositionsOK(verts, k) == \A a \in DOMAIN verts : Len(verts[a]) = 4 /\ InBox(verts[a], k) /\ IsPosition(verts[a])
 GridOK(t) == /\ ~t.offgrid /\ ~t.scale.offgrid
              /\ PositionsOK(t.verts, 1) /\ PositionsOK(t.mesh.verts, 1)
@@ -39,7 +38,7 @@ SeqSet(s) == {s[k] : k \in DOMAIN s}
 ListOK(t, pl, V, m) ==
   LET listed == {t.verts[t.lists[m][k]] : k \in DOMAIN t.lists[m]}
       fv == FacetVerts(pl, V, m)
-  IN IF Cardinality(fv) >= 3 THEN listed = fv ELSE listed \subseteq fv
+  IN IF IsFace(pl, V, m) THEN listed = fv ELSE listed \subseteq fv
 
 (* float volume of to_trimesh() against the exact enclosure: relative 1e-9 plus its width *)
 FloatVolOK(x, enc) ==
@@ -73,7 +72,10 @@ Judge(t, pl, V) ==
   "ACCEPT"
 
 Verdict(t) ==
-  IF ~(WellFormed(t.facets) /\ t.Q \in 1..1000) THEN "OOD input" ELSE
+  (* the second construction shrinks the shape by at most 3, keeping its vertices apart on the scale *)
+  (* of the code's merge tolerances (see Separated)                                                  *)
+  IF ~(WellFormed(t.facets) /\ t.Q \in 1..1000 /\ t.scale.sn \in 1..8 /\ t.scale.sd \in 1..8
+       /\ 3 * t.scale.sn >= t.scale.sd) THEN "OOD input" ELSE
   LET pl == Planes(t.facets)
       X == CrossTab(pl)
   IN
